@@ -3,6 +3,7 @@
    id operand z :  0 <= z < 2^20   the z-th node created in this case (symbolic);
                                    not created yet -> the never-issued id 2^64-1-z
                    z < 0           the raw id -z-1            (0 is never issued)
+                   2^20 <= z<2^21  the id of the (z-2^20)-th created node PLUS 2^32 (never issued; equal to a live id modulo 2^32)
                    2^40 <= z<2^64  the raw id z               (never issued)
    ops    : (0 r) new | (1 a b) clone a into b | (2 r st) add_node | (3 r id) remove_node
             (4 r o d w) add_edge | (5 r o d) remove_edge | (6 r id) get_state
@@ -28,7 +29,7 @@ Definition un_f32 (s : sx) : option Z :=
   match s with SZ z => if (0 <=? z) && (z <? two32) then Some z else None | _ => None end.
 Definition un_id (s : sx) : option Z :=
   match s with
-  | SZ z => if (z <? 1048576) || ((1099511627776 <=? z) && (z <? two64)) then
+  | SZ z => if (z <? 2097152) || ((1099511627776 <=? z) && (z <? two64)) then
               if (- two64 <=? z) then Some z else None
             else None
   | _ => None
@@ -88,6 +89,11 @@ Definition un_graph_case (s : sx) : option (nat * list gop) :=
 Definition resolve_id (issued : list Z) (z : Z) : Z :=
   if z <? 0 then - z - 1
   else if z <? 1048576 then nth (Z.to_nat z) issued (two64 - 1 - z)
+  else if z <? 2097152 then                       (* an ALIAS of the (z - 2^20)-th created node: its id + 2^32, never issued *)
+    match nth_error issued (Z.to_nat (z - 1048576)) with
+    | Some id => id + 4294967296
+    | None => two64 - 1 - z
+    end
   else z.
 
 Definition resolve_op (iss : list Z) (o : gop) : gop :=
